@@ -13,6 +13,7 @@ Extensions over translate.py (everything else is identical):
   * a branch that returns on SOME path is never joined: `if c: A else: B; REST` becomes `if c: A; REST else: B; REST`
     (translate.py would bind the returned value as the joined variable); statements of the skip table bind nothing;
     any internal error is turned into TranslateError("translation of <function> no longer matches: ...");
+  * tuple displays; `d['k'] = e` through cfg["setitem"]; after `if x is None: x = v` the name x is a value (not an option);
   * on the sentinel side of such a test X has type "sentinel" and `X.default_value` translates
     to cfg["sentinel_default"]; `.default_value` of anything else is rejected.
 
@@ -187,6 +188,10 @@ class Tr:
             parts = [self.expr(x, env) for x in e.elts]
             t = parts[0][1] if parts else "any"
             return self.lift(parts, lambda cs: "[" + "; ".join(cs) + "]", "list:" + t)
+        if isinstance(e, ast.Tuple):
+            # (extension) a tuple display, e.g. `return backend, config`
+            parts = [self.expr(x, env) for x in e.elts]
+            return self.lift(parts, lambda cs: "(" + ", ".join(cs) + ")", "tuple")
         if isinstance(e, ast.IfExp):
             c = self.truth(self.expr(e.test, env), e.test)
             a = self.expr(e.body, env)
@@ -338,6 +343,9 @@ class Tr:
                 continue   # (extension) a skipped statement binds nothing the translation can see
             if isinstance(s, ast.Assign):
                 for t in s.targets:
+                    if isinstance(t, ast.Subscript) and ast.unparse(t) in self.cfg.get("setitem", {}):
+                        add(self.cfg["setitem"][ast.unparse(t)][0])
+                        continue
                     if not isinstance(t, ast.Name):
                         self.err(s, "unsupported assignment target")
                     add(t.id)
@@ -387,6 +395,19 @@ class Tr:
             return c if r else "Ok (%s)" % c
         if isinstance(s, ast.Raise):
             return "Raise %s" % self.exn_name(s)
+        if isinstance(s, ast.Assign) and len(s.targets) == 1 and isinstance(s.targets[0], ast.Subscript) \
+                and ast.unparse(s.targets[0]) in self.cfg.get("setitem", {}):
+            # (extension) `d['key'] = e` on a record-typed local: cfg["setitem"][text] = (python name, template(var, value))
+            pyname, template = self.cfg["setitem"][ast.unparse(s.targets[0])]
+            if pyname not in env:
+                self.err(s, "item assignment on an unknown name")
+            c, t, r = self.expr(s.value, env)
+            if r:
+                self.err(s, "raising value in item assignment")
+            vc, vt = env[pyname]
+            env2 = dict(env)
+            env2[pyname] = (pyname, vt)
+            return "let %s := %s in\n%s" % (pyname, template % (vc, c), self.block(rest, env2, kont))
         if isinstance(s, ast.Assign):
             if len(s.targets) != 1 or not isinstance(s.targets[0], ast.Name):
                 self.err(s, "unsupported assignment")
@@ -543,10 +564,18 @@ class Tr:
                 if n in env and env[n][1] == "optZ" and ty == "sentinel":
                     return "None", "optZ"
                 return c, ty
-            if ct is not None:
-                ct, tyt = fix(ct, tyt, env_t)
-            if cf is not None:
-                cf, tyf = fix(cf, tyf, env_f)
+            narrowed_value = (n in env and env[n][1] == "optZ" and ct is not None and cf is not None
+                              and ((n in a_t and n not in a_f and tyf == "Z" and tyt not in ("optZ", "none", "sentinel"))
+                                   or (n in a_f and n not in a_t and tyt == "Z" and tyf not in ("optZ", "none", "sentinel"))))
+            if narrowed_value:
+                # (extension) `if x is None: x = v` : on the other side x was narrowed to its value, on this side it is
+                # assigned a value: after the join x is a value, not an option
+                tyt = tyf = (tyt if n in a_t else tyf)
+            else:
+                if ct is not None:
+                    ct, tyt = fix(ct, tyt, env_t)
+                if cf is not None:
+                    cf, tyf = fix(cf, tyf, env_f)
             tys = {x for x in (tyt, tyf) if x is not None and not x.startswith("maybe:")}
             if "optZ" in tys and "Z" in tys:
                 # x = <int> on one side, x = None on the other
